@@ -44,9 +44,9 @@ theorem opsOK_quiet : OpsOK (fun _ body _ => Quiet body) (· ∉ mutatorNames) Q
 
 /-- the invariant instantiated: no mutator occurs as a value anywhere, every closure body and every pending node is quiet -/
 abbrev QuietInv (c : Core) : Prop :=
-  CoreNPg (fun _ body _ => Quiet body) (· ∉ mutatorNames) (fun _ => True) Quiet QuietName False c
+  CoreNPg (fun _ body _ => Quiet body) (· ∉ mutatorNames) (fun _ => True) (fun _ => True) Quiet QuietName False c
 
-abbrev QuietWorld (w : World) : Prop := WorldNPg (fun _ body _ => Quiet body) (· ∉ mutatorNames) (fun _ => True) w
+abbrev QuietWorld (w : World) : Prop := WorldNPg (fun _ body _ => Quiet body) (· ∉ mutatorNames) (fun _ => True) (fun _ => True) w
 
 theorem init_quiet (w : World) (bs : List Nat) (namesAddr budget : Nat) (tree : Op) (astNames : List (Name × Op))
     (hw : QuietWorld w) (ht : Quiet tree) (ha : ∀ p, p ∈ astNames → Quiet p.2) :
